@@ -20,15 +20,16 @@ def own(key):
 
 def run(tier, seed, scale=1.0):
     t0 = time.time()
-    per = int((30000 if tier == "quick" else 1500000) * scale)
+    # quick: 162 k sequences, ~280 CPU-s (about 20-40 s wall on 16 shared cores); thorough: 5.4 M, ~10 min
+    per = int((30000 if tier == "quick" else 1000000) * scale)
     res = vdriver.Result()
     for prof, flavor, share in PROFILES:
         n = max(1, int(per * share))
         sp = common.spec("dsmodel", prof, seed, flavor=flavor)
-        # the known findings include a sanitizer abort (buf profile): keep resuming crashed chunks
-        # instead of giving up on them after the default 40 reports
+        # the known findings include a sanitizer abort (buf profile, ~0.2% of its cases): keep
+        # resuming crashed chunks there instead of giving up on them after the default 40 reports
         res.merge(vdriver.explore(sp, n, chunk=max(200, min(n // 64, 4000)), chunk_timeout=900,
-                                  stop_after_violations=max(2000, n // 4)))
+                                  stop_after_violations=max(2000, n // 4) if prof == "buf" else 400))
     return common.finish(PROP, tier, seed, "exploration", res, own, RULE, t0,
                          min_conclusive=1000 * scale,
                          assumptions=["reference models in harness/dsmodel are correct",
